@@ -13,7 +13,7 @@ def _c(text, ref, technique=T3, note=TRUST):
 
 CHECKS = {
     "C01": _c("Scan.tla models the scanner's two cursors over abstract files; TLC checks tiling, totality, chunk "
-              "alternation and termination for every file of up to 3 (thorough: 4) segments over 27 segment classes; "
+              "alternation and termination for every file of up to 3 (thorough: 4) segments over 28 segment classes; "
               "every such file is concretised with real compressor streams and round-tripped (also through zstd); "
               "random, damaged and sample files and all short byte strings are round-tripped; expand/recreate runs "
               "are validated chunk by chunk against Chunks.tla (container bytes, IDAT descriptor, thresholds).",
